@@ -155,6 +155,8 @@ struct Worker {
 struct Supervisor {
     worker: Option<Worker>,
     starts: u64,
+    /// the slowest answered case: seconds, entry
+    slowest: (f64, i128),
 }
 
 impl Supervisor {
@@ -201,11 +203,16 @@ impl Supervisor {
         let line = case.to_line();
         let w = self.worker.as_mut().expect("started");
         let sent = writeln!(w.stdin, "{line}").and_then(|_| w.stdin.flush());
+        let t0 = std::time::Instant::now();
         let res = if sent.is_err() {
             Err(mpsc::RecvTimeoutError::Disconnected)
         } else {
             w.rx.recv_timeout(Duration::from_secs(WATCHDOG_SECS))
         };
+        let dt = t0.elapsed().as_secs_f64();
+        if res.is_ok() && dt > self.slowest.0 {
+            self.slowest = (dt, case.as_list().and_then(|l| l.first()).and_then(Sx::as_int).unwrap_or(-1));
+        }
         match res {
             Ok(text) => sx::parse_line(&text).unwrap_or(Sx::L(vec![Sx::N(-1)])),
             Err(mpsc::RecvTimeoutError::Timeout) => {
@@ -352,10 +359,12 @@ const BOUNDARY_SMALL: &[usize] = &[250, 251, 252, 253, 254, 255, 256, 257, 258, 
 const BOUNDARY_BIG: &[usize] = &[65530, 65531, 65532, 65533, 65534, 65535, 65536, 65537, 65538, 65539, 65540];
 const JSON_DEPTHS: &[usize] = &[2, 16, 100, 120, 125, 126, 127, 128, 129, 130, 200, 1000];
 const JSON_DEPTHS_DEEP: &[usize] = &[5_000, 50_000];
-/// HTML nesting: up to 2000 open elements in the main stream; the `deep` stream goes to what
-/// fits into a 65 KiB event and beyond.
+/// HTML nesting: up to 2000 open elements in the main stream; the `deep` stream goes to 16 000,
+/// the most a 65 KiB event can express (`<b>` x 16 000 = 48 KiB).  html5ever's tree builder
+/// scans the stack of open elements for some tags (`<ol>`, `<div>`, ...), so the parse time is
+/// quadratic in the depth: measured 1.4 s at 16 000, beyond the 10 s watchdog at about 45 000.
 const HTML_DEPTHS: &[usize] = &[2, 10, 99, 100, 101, 255, 256, 500, 1000, 2000];
-const HTML_DEPTHS_DEEP: &[usize] = &[4000, 16000, 50000];
+const HTML_DEPTHS_DEEP: &[usize] = &[4000, 8000, 16000];
 const HOSTILE_NUMBERS: &[&str] = &[
     "1e999", "-1e999", "1e400", "1.5", "-0", "0.0", "1E2", "9007199254740991", "9007199254740992", "-9007199254740992",
     "9223372036854775807", "9223372036854775808", "18446744073709551615", "18446744073709551616",
@@ -766,7 +775,7 @@ pub fn run(tier: &str, seed: u64, em: &mut Emitter) {
     }
     let table = entries();
     let per_entry: usize = match tier {
-        "thorough" => 45_000,
+        "thorough" => 16_000,
         _ => 1_900,
     };
     let mut sup = Supervisor::default();
@@ -834,5 +843,8 @@ pub fn run(tier: &str, seed: u64, em: &mut Emitter) {
         }
     }
     sup.stop();
-    eprintln!("c17: {} worker process(es) used", sup.starts);
+    eprintln!(
+        "c17: {} worker process(es) used; slowest answered case {:.2} s (entry {})",
+        sup.starts, sup.slowest.0, sup.slowest.1
+    );
 }
